@@ -134,3 +134,53 @@ def quad_family(repo, res):
                      "plain Gauss-Jacobi rule would replace the composite macro rule", m.line(f.node))
         if (ct, deg, rl) != ("CellType.triangle", 3, "QuadratureType.GLL"):
             res.fail(key, f"{label}: basix is asked for (cell, degree, scheme) = {(ct, deg, rl)}, requested (triangle, 3, GLL)", m.line(f.node))
+
+
+@rule(
+    "DTYPE-MERGE",
+    ["C09"],
+    "integral_generator.extract_dtype, interpreted on all combinations of operand types: an intermediate variable is declared "
+    "with the join (BOOL < INT < REAL < SCALAR) of its value operands - both branches of a conditional, all operands of an "
+    "arithmetic operator - except Condition (BOOL) and Real/Imag (REAL). A narrower declaration (`double sv = cond ? 1.0 : c[0]`) "
+    "silently drops the imaginary part in complex kernels",
+    min_instances=40,
+)
+def dtype_merge(repo, res):
+    import itertools
+
+    IG = "ffcx.codegeneration.integral_generator"
+    m = repo.mod(IG)
+    f = m.func("extract_dtype")
+    res.functions.add(f.key)
+    order = ["DataType.BOOL", "DataType.INT", "DataType.REAL", "DataType.SCALAR"]
+    it = Interp(repo, load_classes(repo), primary=IG)
+    kinds = {"Sum": None, "Product": None, "MathFunction": None, "Condition": "DataType.BOOL", "Real": "DataType.REAL", "Imag": "DataType.REAL", "Conditional": "branches"}
+
+    def is_a(x, names):
+        return x.cls in names
+
+    # isinstance against UFL classes: the sample node's class name decides (Condition covers LT/GT/..., modelled by name)
+    for kind, special in kinds.items():
+        n_ops = 3 if kind == "Conditional" else 2
+        for dts in itertools.product(order[1:] if kind != "Conditional" else order, repeat=n_ops):
+            if kind == "Conditional" and (dts[0] != "DataType.BOOL" or "DataType.BOOL" in dts[1:]):
+                continue
+            key = f"{f.key}:{kind}:{','.join(d.split('.')[1] for d in dts)}"
+            res.ob(key)
+            v = Node(kind)
+            ops = [Node("Symbol", name=f"s{i}", dtype=d) for i, d in enumerate(dts)]
+            try:
+                got = it.call_f(f, [v, ops])
+            except Raised as e:
+                res.fail(key, f"extract_dtype raises ({e.what}) for {kind} with operand types {dts}", m.line(f.node))
+                continue
+            if special == "branches":
+                want = max(dts[1:], key=order.index)
+            elif special is not None:
+                want = special
+            else:
+                want = max(dts, key=order.index)
+            if got != want:
+                res.fail(key, f"a {kind} node with operand types {[d.split('.')[1] for d in dts]} is declared {str(got).split('.')[-1]}, expected {want.split('.')[1]}: "
+                         + ("the narrower type drops the imaginary part / fraction of an operand" if (str(got) not in order or order.index(str(got)) < order.index(want))
+                            else "the wider type is not what the operands deliver"), m.line(f.node))
